@@ -406,36 +406,6 @@ def enoughFuel (evs : List XmlEvent) : Nat := 2 * evs.length + 1
 
 /-! ### `Archive::is_jacoco` (producer.rs) -/
 
-def isCont (b : Nat) : Bool := 128 ≤ b && b ≤ 191
-
-/-- `String::from_utf8(..).is_ok()`; fuel = length -/
-def validUtf8Aux : Nat → List Nat → Bool
-  | 0, bs => bs.isEmpty
-  | _, [] => true
-  | fuel + 1, b :: rest =>
-    if b < 128 then validUtf8Aux fuel rest
-    else if 0xC2 ≤ b ∧ b ≤ 0xDF then
-      match rest with
-      | c :: r1 => isCont c && validUtf8Aux fuel r1
-      | [] => false
-    else if 0xE0 ≤ b ∧ b ≤ 0xEF then
-      match rest with
-      | c :: d :: r2 =>
-        decide ((b = 0xE0 ∧ 0xA0 ≤ c ∧ c ≤ 0xBF) ∨ (0xE1 ≤ b ∧ b ≤ 0xEC ∧ 0x80 ≤ c ∧ c ≤ 0xBF)
-          ∨ (b = 0xED ∧ 0x80 ≤ c ∧ c ≤ 0x9F) ∨ (0xEE ≤ b ∧ b ≤ 0xEF ∧ 0x80 ≤ c ∧ c ≤ 0xBF))
-          && isCont d && validUtf8Aux fuel r2
-      | _ => false
-    else if 0xF0 ≤ b ∧ b ≤ 0xF4 then
-      match rest with
-      | c :: d :: e :: r3 =>
-        decide ((b = 0xF0 ∧ 0x90 ≤ c ∧ c ≤ 0xBF) ∨ (0xF1 ≤ b ∧ b ≤ 0xF3 ∧ 0x80 ≤ c ∧ c ≤ 0xBF)
-          ∨ (b = 0xF4 ∧ 0x80 ≤ c ∧ c ≤ 0x8F))
-          && isCont d && isCont e && validUtf8Aux fuel r3
-      | _ => false
-    else false
-
-def validUtf8 (bs : List Nat) : Bool := validUtf8Aux bs.length bs
-
 def isPrefixOf' : List Nat → List Nat → Bool
   | [], _ => true
   | _ :: _, [] => false
@@ -448,11 +418,8 @@ def containsSub (pat : List Nat) : List Nat → Bool
 /-- the bytes of the JaCoCo DTD public-identifier fragment (dash, two slashes, JACOCO, two slashes, DTD) -/
 def jacocoMarker : List Nat := [45, 47, 47, 74, 65, 67, 79, 67, 79, 47, 47, 68, 84, 68]
 
-/-- `read_exact` of 256 bytes must succeed, they must be UTF-8 and contain the marker -/
-def isJacoco (file : List Nat) : Bool :=
-  if file.length < 256 then false
-  else
-    let head := file.take 256
-    validUtf8 head && containsSub jacocoMarker head
+/-- producer.rs `is_jacoco` (since 82d1c8b): up to 256 bytes are read (`take(256).read_to_end`,
+a shorter file is read whole) and the marker must occur in them; no UTF-8 requirement -/
+def isJacoco (file : List Nat) : Bool := containsSub jacocoMarker (file.take 256)
 
 end Grcov.Jacoco
